@@ -22,19 +22,20 @@ func (d *driver) driveRevisions(ntraces, nops int) {
 	for n := 0; n < ntraces; n++ {
 		allowance, collateral := uint64(1000000000), uint64(900000000)
 		if n%4 == 2 { // a contract that runs out of money after a few appended sectors
-			allowance, collateral = 3*uint64(d.e.UP.Stor)+5000, 5*uint64(d.e.UP.Stor)
+			allowance, collateral = 3*uint64(d.e.UP.StorB*Dur)+5000, 5*uint64(d.e.UP.StorB*Dur)
 		}
 		tr := d.newTrace(allowance, collateral, known)
+		renewA, renewC := int64(allowance/4), int64(allowance/5) // allowance >= collateral / 2, sums stay below 2^31 units
 		ops := nops/2 + rng.Intn(nops)
 		renewAt := -1
 		if n%3 == 0 {
-			renewAt = ops - 1 - rng.Intn(6)
+			renewAt = ops/3 + rng.Intn(ops/3+1)
 		}
 		size := func() int { return len(tr.state().Roots) }
 		fl := func(classes ...string) string { return flaw(rng, 4, classes...) }
 		for op := 0; op < ops && !tr.bad; op++ {
 			if op == renewAt {
-				d.exchange(Act{Op: "BeginRenew", S: 1, Kind: pick(rng, "renew", "refresh", "refreshpartial"), Pf: flaw(rng, 10, pfClasses...), Cf: flaw(rng, 10, "badsig", "stale"), Rf: flaw(rng, 10, "bad")},
+				d.exchange(Act{Op: "BeginRenew", S: 1, Kind: pick(rng, "renew", "refresh", "refreshpartial"), Pf: flaw(rng, 10, pfClasses...), Cf: flaw(rng, 10, "badsig", "stale"), Rf: flaw(rng, 10, "bad"), NA: renewA, NC: renewC},
 					"Round2Renew", flaw(rng, 15, "bad", "other", "replay"), pick(rng, "finish", "finish", "finish", "abort2", "abort1"))
 				continue
 			}
